@@ -148,6 +148,13 @@ def run(tier, seed, functions):
                     nd["rename_mode"] = None
             check_spec(spec, res, "sync")
             check_spec(spec, res, "async")
+    # systematic part (independent of the dice above): every wrapper rename history x an inner binding of a wrapper-only input
+    rng2 = random.Random(seed * 131 + 5)
+    for _ in range(n // 6):
+        base = nest.gen_spec(rng2)
+        for h in ("none", "roundtrip", "swap_twice", "reuse", "real"):
+            v = nest.force(base, h, rng2)
+            check_spec(v, res, "sync")
     return res
 
 
